@@ -634,7 +634,7 @@ def main(argv=None):
         # (after minimisation) or it is reported; to bound cost, runs are
         # minimised until one is unmatched or the shrink wall budget is used
         for r in rs:
-            if unmatched_reported or reported_classes >= 3:
+            if unmatched_reported or reported_classes >= 8:
                 break
             if time.time() > shrink_deadline:
                 # cannot decide: be conservative and report this run
